@@ -121,6 +121,7 @@ class Backend(BaseBackend):
             return r'[%s](%s)' % (text, url)
 
     def write_entry(self, key, label, text):
+        label = self.format_str(label)
         # Support http://www.michelf.com/projects/php-markdown/extra/#def-list
         if self.php_extra:
             self.output(u'%s\n' % label)
